@@ -236,11 +236,20 @@ impl<'tcx> Ctx<'tcx> {
                 };
             }
         }
+        let arg_defs: Vec<J> = args
+            .iter()
+            .filter_map(|a| a.as_type())
+            .map(|t| match t.kind() {
+                ty::Adt(d, _) => J::s(path(tcx, d.did())),
+                _ => J::Null,
+            })
+            .collect();
         obj! {
             "def": J::s(path(tcx, def_id)),
             "name": J::s(name),
             "trait": J::opt_s(trait_of),
             "args": args_json(tcx, args),
+            "arg_defs": J::Arr(arg_defs),
             "local": J::Bool(def_id.is_local()),
             "res": res,
         }
